@@ -80,6 +80,17 @@ Theorem C20_vptr_roundtrip : forall p, vp_fid p < two32 -> vp_len p < two32 -> v
 Proof. exact C20Proofs.vptr_roundtrip. Qed.
 Print Assumptions C20_vptr_roundtrip.
 
+(* valuePointer.Less (fid, then offset, then len) is a strict total order on value pointers *)
+Theorem C20_vptr_less_strict_total : forall p q r,
+  vptr_less p p = false
+  /\ (vptr_less p q = true -> vptr_less q r = true -> vptr_less p r = true)
+  /\ (vptr_less p q = false -> vptr_less q p = false -> p = q).
+Proof.
+  intros p q r. split; [exact (C20Proofs.vptr_less_irrefl p)|].
+  split; [exact (C20Proofs.vptr_less_trans p q r) | exact (C20Proofs.vptr_less_total p q)].
+Qed.
+Print Assumptions C20_vptr_less_strict_total.
+
 (* every encoder emits well-formed bytes (the side condition the decoders' theorems use) *)
 Theorem C20_encoders_wf : forall x, wf_bytes (put_uvarint x) = true /\ wf_bytes (be_enc 8 x) = true.
 Proof. intros x. split; [exact (UvarintProofs.put_uvarint_wf x) | exact (BytesProofs.wf_bytes_be_enc 8 x)]. Qed.
